@@ -48,6 +48,15 @@ CLAIMED = {
              "interpreter that a started Task equals its eager twin and that cancellation runs no value callback, and every "
              "program is executed on the real Task API (nothing may run before the start).",
         note=SEQ_NOTE, design="7/C12", technique="TLA+ reference interpreter; TLC-enumerated programs replayed on the code"),
+    "C19": dict(
+        text="Atomic.tla transcribes the std::atomic<T> operation semantics (limb arithmetic, exact for 8..64 bit); TLC "
+             "explores all operation sequences up to the depth bound from boundary initial values, checks the CAS and "
+             "fetch/assign contracts on the transcription and prints every sequence with expected return, stored and "
+             "`expected` values; each sequence is executed on yaclib_std::atomic<T> in the FIBER re-implementation and the "
+             "THREAD wrapper (forced/forbidden spurious weak-CAS failures through the hook) and on std::atomic<T> itself.",
+        note="one thread; 12 types; floating types with integer-valued operands; atomic_flag/fences not enumerated; trusted: "
+             "TLC, harness/sc_atomic.cpp", design="7/C19",
+        technique="TLA+ reference semantics; TLC-enumerated operation sequences replayed on both backends"),
     "C20": dict(
         text="Pipeline.tla carries a cost annotation (one allocation per step plus the inner objects a callback creates); "
              "TLC prints the bound per program and operator new is counted while the real API executes the program.",
@@ -99,7 +108,7 @@ def main():
 
 
 HOOK_COMMITS = ["286d692", "d1e7f53"]
-FIX_COMMITS = ["ef56e8f"]
+FIX_COMMITS = ["8086256", "48cc44a"]
 
 if __name__ == "__main__":
     main()
